@@ -51,6 +51,7 @@ type scase struct {
 	P   []int  `json:"p"`
 	Exp string `json:"exp"`
 	Sh  []int  `json:"sh"`
+	Val []int  `json:"val"`
 }
 
 type kind struct {
@@ -517,6 +518,88 @@ func prepare(c *scase, k, ko kind, b *builder) *call {
 	return nil
 }
 
+func variablesOf(v MagicVector, order int) error {
+	switch w := v.(type) {
+	case DenseReal64Vector:
+		return w.Variables(order)
+	case DenseReal32Vector:
+		return w.Variables(order)
+	}
+	return fmt.Errorf("no Variables method on %T", v)
+}
+
+// shrinking re-allocation: the scalar first holds derivatives of n1 variables
+// up to order 2 (every slot non-zero), is then re-allocated for n2 < n1
+// variables, and only then the one accessor call of the case is observed
+func prepareShrink(c *scase, t ScalarType) *call {
+	parts := strings.Split(c.Op, ".")
+	if len(parts) != 3 {
+		vh.Fatal("bad op " + c.Op)
+	}
+	way, acc := parts[1], parts[2]
+	n1, n2, o2 := c.D[0], c.D[1], c.A[0]
+	var x MagicScalar
+	var vec MagicVector
+	if way == "Variables" {
+		vec = NullDenseMagicVector(t, n1)
+		if err := variablesOf(vec, 2); err != nil {
+			vh.Fatal(err)
+		}
+		x = vec.MagicAt(0)
+	} else {
+		x = newMagic(t, 3)
+		x.Alloc(n1, 2)
+	}
+	for k := 0; k < n1; k++ {
+		x.SetDerivative(k, float64(100+k))
+		for l := 0; l < n1; l++ {
+			x.SetHessian(k, l, float64(200+10*k+l))
+		}
+	}
+	switch way {
+	case "Alloc":
+		x.Alloc(n2, o2)
+	case "SetVariable":
+		if err := x.SetVariable(0, n2, o2); err != nil {
+			vh.Fatal(err)
+		}
+	case "Variables":
+		if err := variablesOf(vec.MagicSlice(0, n2), o2); err != nil {
+			vh.Fatal(err)
+		}
+	case "Set":
+		b := newMagic(t, 3)
+		if err := b.SetVariable(0, n2, o2); err != nil {
+			vh.Fatal(err)
+		}
+		x.Set(b)
+	case "Receiver":
+		a := newMagic(t, 3)
+		if err := a.SetVariable(0, n2, o2); err != nil {
+			vh.Fatal(err)
+		}
+		x.Mul(a, a)
+	default:
+		vh.Fatal("way not bound: " + way)
+	}
+	if x.GetN() != n2 || x.GetOrder() != o2 {
+		vh.Fatal(fmt.Sprintf("shrink history %s did not lead to N=%d order=%d but N=%d order=%d", way, n2, o2, x.GetN(), x.GetOrder()))
+	}
+	a := c.A
+	switch acc {
+	case "GetDerivative":
+		return &call{nil, func() (interface{}, error) { return ConstFloat64(x.GetDerivative(a[1])), nil }}
+	case "SetDerivative":
+		return &call{nil, func() (interface{}, error) { x.SetDerivative(a[1], 7); return nil, nil }}
+	case "GetHessian":
+		return &call{nil, func() (interface{}, error) { return ConstFloat64(x.GetHessian(a[1], a[2])), nil }}
+	case "SetHessian":
+		return &call{nil, func() (interface{}, error) { x.SetHessian(a[1], a[2], 7); return nil, nil }}
+	}
+	vh.Fatal("accessor not bound: " + acc)
+	return nil
+}
+
 func newMagic(t ScalarType, v float64) MagicScalar {
 	if t == Real32Type {
 		return NewReal32(float32(v))
@@ -536,6 +619,9 @@ func prepareReal(c *scase, t ScalarType) *call {
 		return x
 	}
 	no := func(x MagicScalar) interface{} { return [2]int{x.GetN(), x.GetOrder()} }
+	if strings.HasPrefix(c.Op, "RShrink.") {
+		return prepareShrink(c, t)
+	}
 	switch c.Op {
 	case "RAlloc":
 		x := newMagic(t, 3)
@@ -1013,7 +1099,11 @@ func runCase(c *scase, idx int, kinds []kind) *caseResult {
 					info["parent_modified_on_reject"]++
 				}
 			case "ok", "any":
-				if accepted {
+				if accepted && shapeOK && len(c.Val) == 1 && (len(o.Res) != 1 || o.Res[0] != float64(c.Val[0])) {
+					// an admissible read that does not see the value the contract prescribes
+					// (stale storage of an earlier, larger allocation)
+					report(c, in.k, in.ko, mode, "stale_value", o, nil)
+				} else if accepted {
 					if !shapeOK {
 						if mode == "plain" {
 							report(c, in.k, in.ko, mode, "wrong_shape", o, nil)
